@@ -72,11 +72,21 @@ func (w *World) callSitesOf(pred func(f *types.Func) bool) []callSite {
 					if !ok {
 						return true
 					}
+					directDefer := false
 						fo, ok := typeutil.Callee(p.TypesInfo, call).(*types.Func)
 					if ok && !pred(fo) {
 						// a forwarding helper stands for the call in its body (forward.go)
 						if in := w.forwardedCall(p, call); in != nil {
 							if fo2, ok2 := typeutil.Callee(p.TypesInfo, in).(*types.Func); ok2 && pred(fo2) {
+								// a helper deferred directly stands for a deferred closure around the inner call
+								// when its arguments are addresses or single-assignment variables (forward.go)
+								if len(stack) >= 2 {
+									if ds, isDefer := stack[len(stack)-2].(*ast.DeferStmt); isDefer && ds.Call == call {
+										if din := w.deferredForward(p, call); din != nil {
+											in, directDefer = din, true
+										}
+									}
+								}
 								call, fo = in, fo2
 							}
 						}
@@ -94,7 +104,7 @@ func (w *World) callSitesOf(pred func(f *types.Func) bool) []callSite {
 							}
 						}
 					}
-					cs := callSite{pkg: p, fn: pkgShortOf(path) + "." + declRelName(fd), call: call, decl: fd}
+					cs := callSite{pkg: p, fn: pkgShortOf(path) + "." + declRelName(fd), call: call, decl: fd, deferd: directDefer, inLit: directDefer}
 					for i, s := range stack {
 						switch x := s.(type) {
 						case *ast.ForStmt, *ast.RangeStmt:
@@ -175,6 +185,13 @@ func checkC05(w *World, tier string) *Report {
 	r.need("R5.7", 1)
 	emitSiteRule(w, r, "R6.1")
 	emitReturnRule(w, r, "R6.1", func(fn string) bool { return fn == "(*EVM).Call" })
+	// seventh batch: which calls get join points at all is decided by inherited statements of Call — the
+	// code-less fast path `len(code) == 0`, the precompile branch — so the embedding of Call in the
+	// reference's Call (C01 R1.1/R1.3) is a premise of "every contract call": a widened fast path
+	// (`|| code[0] == STOP`) skips both join points for contracts that do have code
+	w.e1().cloneRule(r, "R5.8", pkVM, func(name string, pr *PairResult) bool { return name == "(*EVM).Call" })
+	r.need("R5.8", 1)
+	r.Explanation += " R5.8 (shared with C01) the inherited statements of Call — among them the conditions that decide whether the callee has code to run — are the reference's, and every fork insertion is a reviewed one."
 	r.Explanation += " R5.7 (*EVMInterpreter).Run is an SSA clone of the reference: the result the post-call join point is given is what the callee returned; R6.1 (shared with C06) the gas argument of the post-call join point is defined only by gas = contract.Gas."
 	return r
 }
@@ -571,11 +588,98 @@ func addR55(w *World, r *Report) {
 		r.holds("R5.5", "setter-callers", "-", fmt.Sprintf("%d setters, none called from inside the fork", len(setters)))
 	}
 	for _, s := range sites {
+		// the object under construction: `x := &T{…}` earlier in the same straight-line body, and the
+		// setter called on it as a top-level statement is the enabling one (stores the constant true)
+		if constructorSetterCall(w, s, isFlag) {
+			r.holds("R5.5", "setter-caller:"+s.fn+"/constructor", w.pos(s.call.Pos()), "the constructor switches join points on for the object it is building, before the object is handed out")
+			continue
+		}
 		r.violated("R5.5", "setter-caller:"+s.fn, w.pos(s.call.Pos()), "the fork itself switches the join-point enable flag (call of a setter in "+s.fn+"): frames running until it is switched back fire no join points, and an early return in between leaves it off")
 	}
 	r.need("R5.5", 3)
 }
 
+
+// constructorSetterCall: the site is a top-level statement `x.Set()` of a function that defined x earlier by
+// a composite literal, and Set's whole body stores the constant true into the flag (directly, or through
+// one setter called with the constant true).
+func constructorSetterCall(w *World, cs callSite, isFlag func(*packages.Package, ast.Expr) bool) bool {
+	p, fd := cs.pkg, cs.decl
+	sel, ok := cs.call.Fun.(*ast.SelectorExpr)
+	if !ok || fd == nil {
+		return false
+	}
+	id, ok := ast.Unparen(sel.X).(*ast.Ident)
+	if !ok {
+		return false
+	}
+	obj := p.TypesInfo.Uses[id]
+	defined, found := false, false
+	for _, st := range fd.Body.List {
+		if es, ok := st.(*ast.ExprStmt); ok && es.X == ast.Expr(cs.call) {
+			found = defined
+			break
+		}
+		d, ok := st.(*ast.AssignStmt)
+		if !ok || d.Tok != token.DEFINE || len(d.Lhs) != 1 || len(d.Rhs) != 1 {
+			continue
+		}
+		if lid, ok := d.Lhs[0].(*ast.Ident); ok && p.TypesInfo.Defs[lid] == obj && obj != nil {
+			e := ast.Unparen(d.Rhs[0])
+			if u, ok := e.(*ast.UnaryExpr); ok && u.Op == token.AND {
+				e = ast.Unparen(u.X)
+			}
+			_, defined = e.(*ast.CompositeLit)
+		}
+	}
+	if !found {
+		return false
+	}
+	isTrue := func(pk *packages.Package, e ast.Expr) bool {
+		tv, ok := pk.TypesInfo.Types[e]
+		return ok && tv.Value != nil && tv.Value.ExactString() == "true"
+	}
+	var enables func(f *types.Func, depth int) bool
+	enables = func(f *types.Func, depth int) bool {
+		if f == nil || f.Pkg() == nil || depth > 2 {
+			return false
+		}
+		pk := w.Pkgs[f.Pkg().Path()]
+		if pk == nil {
+			return false
+		}
+		hd, _ := w.FuncDecl(f.Pkg().Path(), relNameOfFunc(f))
+		if hd == nil || hd.Body == nil || len(hd.Body.List) != 1 {
+			return false
+		}
+		switch st := hd.Body.List[0].(type) {
+		case *ast.AssignStmt:
+			return len(st.Lhs) == 1 && len(st.Rhs) == 1 && isFlag(pk, st.Lhs[0]) && isTrue(pk, st.Rhs[0])
+		case *ast.ExprStmt:
+			c, ok := st.X.(*ast.CallExpr)
+			if !ok || len(c.Args) != 1 || !isTrue(pk, c.Args[0]) {
+				return false
+			}
+			g, _ := typeutil.Callee(pk.TypesInfo, c).(*types.Func)
+			if g == nil {
+				return false
+			}
+			gd, _ := w.FuncDecl(g.Pkg().Path(), relNameOfFunc(g))
+			if gd == nil || gd.Body == nil || len(gd.Body.List) != 1 || gd.Type.Params.NumFields() != 1 {
+				return false
+			}
+			as, ok := gd.Body.List[0].(*ast.AssignStmt)
+			if !ok || len(as.Lhs) != 1 || len(as.Rhs) != 1 || !isFlag(pk, as.Lhs[0]) {
+				return false
+			}
+			rid, ok := as.Rhs[0].(*ast.Ident)
+			return ok && len(gd.Type.Params.List[0].Names) == 1 && pk.TypesInfo.Uses[rid] == pk.TypesInfo.Defs[gd.Type.Params.List[0].Names[0]]
+		}
+		return false
+	}
+	callee, _ := typeutil.Callee(p.TypesInfo, cs.call).(*types.Func)
+	return enables(callee, 0)
+}
 
 // constructorInit: as is a top-level statement of fd that assigns a constant to sel = X.f where X is a
 // local defined earlier at the top level of fd by a composite literal (or its address).
